@@ -434,7 +434,7 @@ pub fn idx(i: u16, len: usize) -> usize {
 
 /// Parent side of a sharded thorough run: spawn K copies of this binary as shards, merge their evidence.
 pub fn run_sharded(id: &'static str, seed: u64, shards: u64) -> i32 {
-    let exe = std::env::current_exe().expect("current_exe");
+    let exe = if std::path::Path::new("/proc/self/exe").exists() { PathBuf::from("/proc/self/exe") } else { std::env::current_exe().expect("current_exe") };
     let t0 = Instant::now();
     let dir = root().join("evidence");
     let _ = std::fs::create_dir_all(&dir);
